@@ -46,7 +46,7 @@ def proj_kripke(k, idx, amap_inv):
                 'L': [sorted(repr(a) for a in k.labels(s)) for s in states],
                 'attrs': sorted(vars(k))}          # a call must not leave new attributes (hidden state) on the caller's object
     except Exception as ex:
-        return {'S': [-2], 'S0': [], 'R': [], 'L': [], 'error': type(ex).__name__ + ':' + str(ex)[:60]}
+        return {'S': [-2], 'S0': [], 'R': [], 'L': [], 'attrs': ['projection failed: ' + type(ex).__name__ + ':' + str(ex)[:60]]}
 
 
 def _hashable(x):
@@ -63,7 +63,7 @@ def proj_formula(obj):
     try:
         return {'tree': to_tree(obj), 'text': str(obj), 'attrs': _attr_names(obj)}
     except Exception as ex:
-        return {'tree': ['error'], 'text': type(ex).__name__}
+        return {'tree': ['error'], 'text': type(ex).__name__, 'attrs': []}
 
 
 def _attr_names(obj):
@@ -103,7 +103,7 @@ def run_history(h):
                 ftxt[key] = to_text(f, fl['logic'])
             return ftxt[key]
         if key not in fobj:
-            fobj[key] = to_obj(f, LANGS[fl['logic']])
+            fobj[key] = to_obj(f, LANGS[fl['logic']], share={} if (h.get('seed', 0) + j) % 3 == 0 else None)
         return fobj[key]
     # every formula object exists from the start, so that its projection can be compared throughout
     for b, bl in enumerate(h.get('bad', [])):
@@ -171,6 +171,8 @@ def run_history(h):
                                 if (x == FOREIGN and m == FOREIGN) or (x != FOREIGN and idx.get(x) == m):
                                     v.discard(x)
                                     break
+                            if st['kind'] == 'swap':
+                                v.add(FOREIGN)
                 except Exception as ex:
                     ev['mutate_error'] = type(ex).__name__
         elif st['op'] == 'drop':
